@@ -34,6 +34,9 @@ type shutCase struct {
 	Seed    int64    `json:"seed,omitempty"`
 	Cp      bool     `json:"cp,omitempty"`  // feedDeliver / dropFeed: the feed has a CheckpointPrefix
 	TTL     bool     `json:"ttl,omitempty"` // writer: the held write carries a 1 s expiry (the bucket's first), and the child lives past it
+	// kind "lifecycle" (C13): a lifecycle history run in a process of its own, so that a panic on one of
+	// rosmar's own goroutines (expiry timer) is an observation and not the end of the test run
+	Steps []Op `json:"steps,omitempty"`
 }
 
 type shutResult struct {
@@ -73,6 +76,10 @@ func runShutdownScenario(c shutCase) (res shutResult) {
 	}
 	if c.Kind == "closeRace" {
 		return runCloseRaceScenario(c)
+	}
+	if c.Kind == "lifecycle" {
+		w := runLifecycle(c.Steps)
+		return shutResult{Devs: w.devs, InFlight: true, Log: w.trace}
 	}
 	bad := func(clause, f string, a ...any) {
 		res.Devs = append(res.Devs, Deviation{Clause: clause, Props: []string{"C20"}, Sig: clause + "|" + c.Kind, Msg: fmt.Sprintf(f, a...)})
@@ -336,7 +343,11 @@ func runShutdownChild(c shutCase) (shutResult, error) {
 		if len(msg) > 1200 {
 			msg = msg[:1200]
 		}
-		res.Devs = append(res.Devs, Deviation{Clause: "shut.panic", Props: []string{"C20"}, Sig: "shut.panic|" + c.Kind, Msg: fmt.Sprintf("the process panicked during / after %s with a %s activity in flight:\n%s", c.Shutdown, c.Kind, msg)})
+		props := []string{"C20"}
+		if c.Kind == "lifecycle" {
+			props = []string{"C13", "C20"} // handles opened and closed in turn: whatever panics took every other handle with it
+		}
+		res.Devs = append(res.Devs, Deviation{Clause: "shut.panic", Props: props, Sig: "shut.panic|" + c.Kind, Msg: fmt.Sprintf("the process panicked during / after %s with a %s activity in flight:\n%s", c.Shutdown, c.Kind, msg)})
 	case timedOut:
 		if strings.Contains(all, "sync.(*Mutex).Lock") && strings.Contains(all, "rosmar.") {
 			i := strings.Index(all, "sync.(*Mutex).Lock")
